@@ -66,6 +66,7 @@ def run(F, rep, tier):
            "the emitter has an arm for every IR variant (%d/%d)" % (len(T.S), len(T.variants)))
     pipe_rules(F, rep, T)
     irp_read(F, rep, T)
+    irp_def_use(F, rep, T)
     irp_order(F, rep, T)
     irp_late_read(F, rep, T)
     irp_bracket(F, rep, T)
@@ -194,6 +195,65 @@ def position_reads(s):
     for r in s["reads"]:
         out.add(r)
     return out
+
+
+def irp_def_use(F, rep, T):
+    """the result variable of a sub-expression is only meaningful after that sub-expression's code: in every lowering
+    template, an op that names `result(child)` comes after the code of `child` (in the same or an enclosing sequence, on
+    every alternative) - a condition whose code is emitted somewhere else (hoisted in front of an if-chain, dropped) is
+    evaluated at the wrong time or not at all"""
+    n = 0
+
+    def vals_in(v, out):
+        if isinstance(v, tuple):
+            if v and v[0] == "result":
+                out.append(v)
+            for x in v:
+                vals_in(x, out)
+        elif isinstance(v, list):
+            for x in v:
+                vals_in(x, out)
+
+    def walk_items(items, defined, name, by_label=None):
+        nonlocal n
+        defined = set(defined)
+        by_label = {} if by_label is None else by_label      # what earlier alternatives with the same label defined (one case split)
+        for it in items:
+            if it[0] == "code":
+                if isinstance(it[3], tuple) and it[3] and it[3][0] == "result":
+                    defined.add(it[3][1])
+                elif it[1] == "expr":
+                    defined.add(it[2])
+            elif it[0] == "op":
+                used = []
+                vals_in(it[2], used)
+                for u in used:
+                    n += 1
+                    ok = u[1] in defined
+                    if not ok:
+                        rep.ob("IRP-def-use", "%s|%s|%s" % (name, it[1], u[1]), False,
+                               "IR::%s in the lowering of %s names the result of `%s`, but the code of `%s` has not been emitted at that "
+                               "point of the template: the sub-expression is evaluated elsewhere (or not at all)" % (it[1], name, u[1], u[1]),
+                               it[3] if len(it) > 3 else None)
+            elif it[0] == "rep":
+                defined |= walk_items(it[2], defined, name)
+            elif it[0] == "alt":
+                labels = it[2] if len(it) > 2 and it[2] else [None] * len(it[1])
+                outs = []
+                for a, lab in zip(it[1], labels):
+                    key = str(lab).split("[")[0]
+                    o = walk_items(a, defined | by_label.get(key, set()), name, by_label)
+                    by_label[key] = by_label.get(key, set()) | (o - defined)
+                    outs.append(o)
+                if outs:
+                    common = set.intersection(*outs)
+                    defined |= common
+        return defined
+    for name, items, result, arm in T.all_templates():
+        if items:
+            walk_items(items, set(), name)
+    rep.ob("IRP-def-use", "census", True, "%d uses of sub-expression results checked against the position of their code" % n, None, sites=n)
+    rep.floor("IRP-def-use", "result uses", n, 30)
 
 
 def irp_read(F, rep, T):
